@@ -1,6 +1,6 @@
 (* C07  No look-ahead: the past never depends on future market data (partial: daily accessors are modelled; minute bars and
    attribute access outside the modelled accessors are explored by the two-world runs only). *)
-From RQ Require Import Model.Num Model.Calendar Model.View Model.Phases Proofs.NumFacts Proofs.CalendarFacts Proofs.ViewFacts Proofs.PhasesFacts Gen.ApiPhases.
+From RQ Require Import Model.Num Model.Calendar Model.View Model.Phases Proofs.NumFacts Proofs.CalendarFacts Proofs.ViewFacts Proofs.PhasesFacts Gen.ApiPhases Gen.Calendar.
 Open Scope Z_scope.
 
 (* two market histories that agree up to the moment (day d, phase ph) give the same answer from every accessor *)
@@ -60,6 +60,17 @@ Theorem C07_event_handlers_read_through_the_phase :
      handler_phase handler_phase_table handler_fallback_enclosing ev enclosing = enclosing).
 Proof. exact (handler_phase_sound event_split handler_phase_table handler_fallback_enclosing handler_phases_ok). Qed.
 
+(* weekly history with include_now and the bar's mavg / vwap (the code's end-date rules, regenerated in Gen/Calendar.v): before the open
+   and in the auction the window ends at the previous trading day, in a minute run also during the day - never at today's complete day bar *)
+Theorem C07_weekly_and_mavg_end_yesterday : forall sys_minute ph today prev, pre_open ph = true ->
+  gen_weekly_history_end sys_minute true ph today prev = prev /\ gen_mavg_end sys_minute true ph today prev = prev.
+Proof. intros m ph c p H. rewrite gen_weekly_history_end_eq, gen_mavg_end_eq. unfold weekly_history_end, mavg_end.
+  destruct ph; try discriminate H; destruct m; split; reflexivity. Qed.
+Theorem C07_weekly_end_intraday_minute : forall ph today prev, after_close ph = false ->
+  gen_weekly_history_end true true ph today prev = prev /\ gen_mavg_end true true ph today prev = prev.
+Proof. intros ph c p H. rewrite gen_weekly_history_end_eq, gen_mavg_end_eq. unfold weekly_history_end, mavg_end.
+  destruct ph; try discriminate H; split; reflexivity. Qed.
+
 Print Assumptions C07_price_board.
 Print Assumptions C07_bar_dict_and_matcher_bar.
 Print Assumptions C07_snapshot.
@@ -70,3 +81,5 @@ Print Assumptions C07_history_ends_yesterday.
 Print Assumptions C07_history.
 Print Assumptions C07_run.
 Print Assumptions C07_event_handlers_read_through_the_phase.
+Print Assumptions C07_weekly_and_mavg_end_yesterday.
+Print Assumptions C07_weekly_end_intraday_minute.
